@@ -104,13 +104,15 @@ def check(ctx):
         for name, b, nes in (("committed", ctx.body_with(f"{POOL}::process_committed_transactions", NE), None),
                              ("gather", F.unit(f"<{SEL} as {SA}>::gather_best_txs").root, None)):
             t = ctx.call_tests(b, HD)
+            # the promotion list: the vector whose elements are handed to new_executable_transaction
             pushes = [c for c in b.calls_to("alloc::vec::Vec::push")
-                      if atom_match(Origins(b, 1).atoms(c.args[0]), "local:transactions_to_promote")]
+                      if any(ctx.same_local(b, c.args[0], ne.args[1], depth=2) for ne in b.calls_to(NE))]
             ctx.expect_sites(f"3.{name}-promotion-push", pushes, exactly=1, what="push into transactions_to_promote")
             ctx.guarded(f"3.{name}-promotes-only-free-dependents", b, pushes, t, truth=False,
                         detail="only dependents without remaining pooled dependencies are promoted")
             for c in b.calls_to(NE):
-                ctx.arg_origin(f"3.{name}-promotion-from-list", c, 1, "local:transactions_to_promote", depth=1)
+                ctx.add(f"3.{name}-promotion-from-list", "PROV", any(ctx.same_local(b, p_.args[0], c.args[1], depth=2) for p_ in pushes),
+                        "promotions come from the list filled under the guard", sites=[c.where()], site_key=f"{name}:{c.bb}")
         gb = F.unit(f"<{SEL} as {SA}>::gather_best_txs").root
         rm = ctx.one_call(gb, f"{RST}::remove")
         ctx.arg_origin("3.gather-extracts-executables-only", rm, 1, f"field:{SEL}.executable_transactions_sorted_tip_gas_ratio", depth=2)
